@@ -143,7 +143,8 @@ package cli
 //@   ensures no-env-keeps-value: arg.EnvVar == "" ==> boxframe(0)
 //@   ensures env-flag: c.args[old(len(c.args))].ValueSetFromEnv == (trace[len(trace)-1].kind == 5 && trace[len(trace)-1].b == 1)
 //@   panics invalid: isType(panicval, "string")
-//@   panics rejected-leaves-no-trace: len(c.args) == old(len(c.args)) && frameMap(c.argsIdx)
+//@   panics rejected-leaves-no-trace: len(c.args) == old(len(c.args)) && frameMap(c.argsIdx) &&
+//@       (forall n string :: {n in c.argsIdx} (n in c.argsIdx) == old(n in c.argsIdx)) && (forall n string :: {c.argsIdx[n]} c.argsIdx[n] == old(c.argsIdx[n]))
 
 // noFlow: none of the events added since t0 is the start of a flow run (Step.Run) or of a validation (State.Parse)
 //@ pure func noFlow(t0 trace, t trace) bool = len(t) >= len(t0) &&
